@@ -19,13 +19,22 @@ def search(ctx, broken):
 
 
 def replay(ctx, data):
-    import io
+    """the recorded file (when the replay carries it whole) is loaded again
+    and judged by the same oracle; then the recorded seeded stream is re-run
+    (main.py has restored its seed and tier)"""
     import gtirb
-    r = data["replay"]
+    r = data.get("replay", {})
     print("replay: fault =", r.get("fault"))
-    if "file_hex" in r:
-        raw = bytes.fromhex(r["file_hex"])
+    hx = r.get("file_hex")
+    if hx and len(hx) < 6000 and len(hx) % 2 == 0:
+        raw = bytes.fromhex(hx)
         out, ir, detail = fault_stream.load_outcome(gtirb, raw)
         print("outcome on the current tree:", out, detail)
-        if ir is not None:
-            print("coherence:", fault_stream.coherence_problem(gtirb, ir))
+        if out == "hang":
+            ctx.report({"kind": "hang", "fault": "replayed"}, r,
+                       "load did not return on the replayed file")
+        elif ir is not None:
+            fault_stream.check_accepted(ctx, gtirb, ir, r,
+                                        r.get("fault", "replayed"))
+    if not ctx.violations:
+        run(ctx)
